@@ -34,9 +34,9 @@ from runner import Exploration, Finding
 
 SPEC = {
     "prop": "C09",
-    "lean_targets": ["InfernoVerif.Props.C09", "InfernoVerif.Props.C09Glue", "InfernoVerif.Model.Split", "InfernoVerif.Drv.Proto"],
-    "prop_files": ["InfernoVerif/Props/C09.lean", "InfernoVerif/Props/C09Glue.lean"],
-    "translate": ["Routes"],
+    "lean_targets": ["InfernoVerif.Props.C09", "InfernoVerif.Props.C09Glue", "InfernoVerif.Props.C18GlueProg", "InfernoVerif.Model.Split", "InfernoVerif.Drv.Proto"],
+    "prop_files": ["InfernoVerif/Props/C09.lean", "InfernoVerif/Props/C09Glue.lean", "InfernoVerif/Props/C18GlueProg.lean"],
+    "translate": ["Routes", "DelaySTDPProg"],
     "driver_targets": ["InfernoVerif.Model.Split", "InfernoVerif.Drv.Proto"],
     "lemma_files": ["InfernoVerif/Lemmas/Split.lean"],
     "model_files": ["InfernoVerif/Model/Split.lean"],
